@@ -154,6 +154,7 @@ MwAddedPreflight == \/ (A_out.acam.has /\ A_out.acam # A_in.acam)
                     \/ (A_out.acah # ABSENT /\ A_out.acah # A_in.acah)
                     \/ (A_out.acma # ABSENT /\ A_out.acma # A_in.acma)
 Pre == IsPreflight(A_rq, ans.x) /\ OriginOk
+DeniedPreflight == Pre /\ ~A_in.allow.has        \* (whether a credentials header survives it is left open: D-clause)
 
 (* cross-origin headers are added only for an Origin the configuration allows; no Origin: untouched *)
 OnlyAllowedOrigins == (Answered /\ ~OriginOk) => A_out = A_in
